@@ -12,7 +12,7 @@ TITLE: {p['title']}
 STATEMENT: {p['statement']}
 HOLDS FOR: {p['quantifier']['text']}
 
-Your task: produce {n} INDEPENDENT, realistic source changes to the library (non-test .go files), each of which BREAKS this property while the library still compiles (`go build ./...` and `go vet ./...` fine, also with `-tags verif`) and the existing test suite still passes unchanged (`go test -vet=off -count=1 ./...` in the worktree must stay green — run it). Think of plausible refactoring slips, off-by-one/boundary mistakes, a forgotten copy, a wrong condition, a cache or state that outlives its scope, two cooperating sites that each look fine alone — the kind of bug a maintainer could really introduce. IMPORTANT: prefer changes that need something SPECIFIC to manifest — an unusual input shape, a particular nesting depth, a multi-step sequence of operations, a particular combination of options, a boundary value, a particular interleaving — NOT ones that any ordinary use would expose at once (those would fail the existing tests anyway). Do not touch files named verif_on.go / verif_off.go and do not remove lines calling functions whose name starts with `verif` (instrumentation; leave it alone). Keep each change small (a few lines).
+Your task: produce {n} INDEPENDENT, realistic source changes to the library (non-test .go files), each of which BREAKS this property while the library still compiles (`go build ./...` and `go vet ./...` fine, also with `-tags verif`) and the existing test suite still passes unchanged (`go test -vet=off -count=1 ./...` in the worktree must stay green — run it). Think of plausible refactoring slips, off-by-one/boundary mistakes, a forgotten copy, a wrong condition, a cache or state that outlives its scope, two cooperating sites that each look fine alone — the kind of bug a maintainer could really introduce. IMPORTANT: prefer changes that need something SPECIFIC to manifest — an unusual input shape, a particular nesting depth, a multi-step sequence of operations, a particular combination of options, a boundary value, a particular interleaving — NOT ones that any ordinary use would expose at once (those would fail the existing tests anyway). Do not touch files named verif_on.go / verif_off.go and do not remove lines calling functions whose name starts with `verif` (instrumentation; leave it alone). Keep each change small (a few lines). NEVER use `git stash` (the stash is shared with other worktrees of the same repository and entries get swapped): to test without your change use `git diff > /tmp/<your-own-name>.diff; git apply -R ...; ...; git apply ...`.
 
 For EACH change deliver, inside {wt}/_seed/<letter>/ (letter = a, b, ...):
  1. patch.diff — `git diff` of the change against the worktree HEAD (only that change; reset the tree with `git checkout -- .` between changes so the patches are independent and each applies alone with `git apply`);
